@@ -134,7 +134,22 @@ def scan_case(case, ctx):
     else:
         motifs_np = [_pwm(c) for c in case["motifs"]]
     names = ["m%d" % i for i in range(len(motifs_np))]
+    meme_dir = None
+    if case.get("motif_input") == "meme_file":
+        # fimo() also accepts a MEME file name: write the motifs with 6 decimals and scan with exactly those rounded values
+        motifs_np = [numpy.round(p, 6) for p in motifs_np]
+        meme_dir = tempfile.TemporaryDirectory(prefix="c12m_")
+        mpath = os.path.join(meme_dir.name, "m.meme")
+        with open(mpath, "w") as fh:
+            fh.write("MEME version 4\n\nALPHABET= ACGT\n\nstrands: + -\n\nBackground letter frequencies\nA 0.25 C 0.25 G 0.25 T 0.25\n\n")
+            for n_, p_ in zip(names, motifs_np):
+                fh.write("MOTIF %s\nletter-probability matrix: alength= 4 w= %d nsites= 20 E= 0\n" % (n_, p_.shape[1]))
+                for j in range(p_.shape[1]):
+                    fh.write(" " + "  ".join("%.6f" % v for v in p_[:, j]) + "\n")
+                fh.write("URL http://example.org/%s\n\n" % n_)
+        ctx.label("motifs_from_meme_file")
     motifs = {n: torch.tensor(p) for n, p in zip(names, motifs_np)}
+    motifs_arg = motifs if meme_dir is None else mpath
     log_thr = math.log2(case["threshold"])
     refs = [MotifRef(p, case["eps"], case["bin_size"], log_thr) for p in motifs_np]
     exp, amb = expected_hits(case, refs)
@@ -159,12 +174,12 @@ def scan_case(case, ctx):
         if case.get("pre_call_eps"):
             # an earlier scan with another pseudocount (same motifs, same bin size) must not influence this one
             try:
-                fimo(motifs, arg, bin_size=case["bin_size"], eps=case["pre_call_eps"], threshold=case["threshold"], reverse_complement=case["rc"])
+                fimo(motifs_arg, arg, bin_size=case["bin_size"], eps=case["pre_call_eps"], threshold=case["threshold"], reverse_complement=case["rc"])
             except Exception:  # noqa: BLE001
                 pass
             ctx.label("after_call_with_other_eps")
         arg_keep = None if isinstance(arg, str) else (arg.clone() if isinstance(arg, torch.Tensor) else arg.copy())
-        frames = sut(_run_fimo, case, motifs, arg)
+        frames = sut(_run_fimo, case, motifs_arg, arg)
         if arg_keep is not None:
             same_ = torch.equal(arg, arg_keep) if isinstance(arg, torch.Tensor) else bool((arg == arg_keep).all())
             require(same_, "fimo-sequences-modified", "the caller's sequence array was changed by the scan")
@@ -195,13 +210,13 @@ def scan_case(case, ctx):
         # other views of the same hit set
         view = case.get("view")
         if view == "counts":
-            counts = sut(_run_fimo, case, motifs, arg, return_counts=True)
+            counts = sut(_run_fimo, case, motifs_arg, arg, return_counts=True)
             for mi in range(len(motifs_np)):
                 lo = sum(1 for k in exp if k[0] == mi)
                 hi = lo + sum(1 for k in amb if k[0] == mi)
                 require(lo <= int(counts[mi]) <= hi, "fimo-return-counts", lambda: "motif %d count %d, expected %d..%d" % (mi, int(counts[mi]), lo, hi))
         elif view == "dim1":
-            fr1 = sut(_run_fimo, case, motifs, arg, dim=1)
+            fr1 = sut(_run_fimo, case, motifs_arg, arg, dim=1)
             keys1 = set()
             for df in fr1:
                 require(df["sequence_name"].nunique() == 1, "fimo-dim1-grouping", "a dim=1 frame mixes sequences")
@@ -211,14 +226,14 @@ def scan_case(case, ctx):
             require(keys1 == set(got.keys()), "fimo-dim1-differs", lambda: "dim=1 describes %d hits, dim=0 %d" % (len(keys1), len(got)))
         elif view == "threads":
             numba.set_num_threads(min(case.get("threads2", 16), numba.config.NUMBA_NUM_THREADS))
-            fr2 = sut(_run_fimo, case, motifs, arg)
+            fr2 = sut(_run_fimo, case, motifs_arg, arg)
             got2 = _frames_to_hits(fr2, names, case)
             require(got2 == got, "fimo-thread-count-changes-result", lambda: "threads %d vs %d" % (case.get("threads", 1), case.get("threads2", 16)))
         elif view == "revcomp" and case["input"] != "fasta" and case["rc"]:
             # scanning the reverse complement of every sequence must give the mirror-image hit set with strands exchanged
             rseqs = [_rc(s_) for s_ in seqs]
             arg_r = torch.stack([torch.tensor(numpy.array([[1.0 if ch.upper() == c else 0.0 for ch in s_] for c in LET])) for s_ in rseqs])
-            fr_r = sut(_run_fimo, case, motifs, arg_r)
+            fr_r = sut(_run_fimo, case, motifs_arg, arg_r)
             got_r = _frames_to_hits(fr_r, names, case)
 
             def mirror(key):
@@ -250,13 +265,15 @@ def scan_case(case, ctx):
                 with open(path, "w") as fh:
                     for i, s in enumerate(seqs):
                         fh.write(">seq%d\n%s\n" % (i, s))
-                fr3 = sut(_run_fimo, case, motifs, path)
+                fr3 = sut(_run_fimo, case, motifs_arg, path)
                 got3 = _frames_to_hits(fr3, names, case)
                 require(got3 == got, "fimo-fasta-vs-tensor", lambda: "FASTA gives %d hits, tensor %d" % (len(got3), len(got)))
     finally:
         numba.set_num_threads(numba.config.NUMBA_NUM_THREADS)
         if tmp is not None:
             tmp.cleanup()
+        if meme_dir is not None:
+            meme_dir.cleanup()
     ctx.nt(len(exp) >= 1)
     ctx.extra["inner"] = sum(max(0, len(s) - r.w + 1) for s in seqs for r in refs) * (2 if case["rc"] else 1)
     ctx.label("input_" + case["input"], "rc" if case["rc"] else "no_rc")
@@ -338,7 +355,8 @@ def strategy(draw):
             "bin_size": draw(st.sampled_from([0.1, 0.1, 0.05, 0.25, 0.5, 1.0])), "eps": draw(st.sampled_from([1e-4, 1e-4, 1e-3, 1e-2])),
             "rc": draw(st.sampled_from([True, True, False])), "input": inp, "line_width": draw(st.sampled_from([60, 7, 1000])),
             "threads": draw(st.sampled_from([1, 1, 2, 4])), "threads2": draw(st.sampled_from([1, 3, 8, 16])),
-            "view": draw(st.sampled_from([None, "counts", "dim1", "threads", "other_input", "revcomp"]))}
+            "view": draw(st.sampled_from([None, "counts", "dim1", "threads", "other_input", "revcomp"])),
+            "motif_input": draw(st.sampled_from(["dict", "dict", "meme_file"]))}
 
 
 def _tune_into_band(cols, bin_size, eps, threshold, side):
